@@ -10,7 +10,7 @@ from ..common import Scratch, Timer, tier, seed, use_repo, vlog
 from ..report import Report
 from .c01 import NONE, _TO, _alarm, judge
 
-PROGS = [1, 2, 3, 4, 5, 6, 7, 8]
+PROGS = list(range(1, 11))
 
 
 def pyconst(node):
